@@ -243,6 +243,32 @@ def allowedPreroll (tl : List Smp) : List Nat :=
 
 /-- GET /get with the proposed fix (stop only when EVERY track is past the end of the window): per track, all
 samples before its cut-off reach the muxer -/
+/-- muxerFMP4.writeSample with the proposed fix notes/C29-fix-get-dts-not-monotonic.diff: once a visible sample has been
+received, later samples are never treated as pre-roll -/
+def muxStepFix (t : MTrack) (s : Smp) : MTrack :=
+  if s.dts ≥ 0 || t.seenVisible then
+    if !t.seenVisible then
+      { t with seenVisible := true, firstDTS := s.dts, buf := (if !s.nonSync then [] else t.buf) ++ [s.id] }
+    else { t with buf := t.buf ++ [s.id] }
+  else
+    if !s.nonSync then { t with buf := [s.id] } else { t with buf := t.buf ++ [s.id] }
+
+def getFixedWith (step : MTrack → Smp → MTrack) (tracks : List TrackInfo) (gsegs : List GSeg) (startNs durNs : Int) :
+    Option (List GetOut) :=
+  match findSegments (gsegs.map (·.seg)) (some startNs) (some (startNs + durNs)) with
+  | none => none
+  | some l =>
+    let found := l.filterMap (fun s => gsegs.find? (fun g => g.seg == s))
+    match found with
+    | [] => none
+    | first :: _ =>
+      let outs := tracks.filterMap fun ti =>
+        let tl := trackTimeline ti startNs first none found
+        let fed := tl.filter (fun s => decide (s.dts < goToMp4 durNs ti.ts))
+        let m := fed.foldl step ({ tid := ti.tid } : MTrack)
+        if m.seenVisible then some (⟨m.tid, m.firstDTS, m.buf⟩ : GetOut) else none
+      if outs.isEmpty then none else some outs
+
 def getFixed (tracks : List TrackInfo) (gsegs : List GSeg) (startNs durNs : Int) : Option (List GetOut) :=
   match findSegments (gsegs.map (·.seg)) (some startNs) (some (startNs + durNs)) with
   | none => none
